@@ -89,14 +89,15 @@ def make_case(rng, i):
         g.get("async") for g in spec["guards"].values()) or any(v.get("async") for v in spec["validators"].values())
     if not early_async:
         # a sync-built machine: late listeners must be sync too, except for the rare W7 probe
-        probe = rng.random() < 0.02
+        import os as _os
+        probe = rng.random() < float(_os.environ.get("VMON_W7_RATE", "0.02"))
         for cb in spec["cbs"].values():
-            if cb["provider"] in late and cb["async"]:
-                if probe:
-                    w7 = True
-                else:
-                    cb["async"] = False
-        spec["opts"]["rtc"] = spec["opts"]["rtc"] if not spec["any_async"] else True
+            if cb["provider"] in late:
+                cb["async"] = False
+        late_cbs = [c for c, cb in spec["cbs"].items() if cb["provider"] in late]
+        if probe and late_cbs:
+            spec["cbs"][rng.choice(late_cbs)]["async"] = True
+            w7 = True
     spec["any_async"] = early_async
     if early_async:
         spec["opts"]["rtc"] = True
@@ -156,7 +157,7 @@ def owns(rule, flags):
 def classify(case, rule, detail, log, fault, ck):
     sc = case["scenario"]
     if case.get("w7"):
-        return "late-async-listener-on-sync-machine:" + rule.split(".")[0]
+        return "late-async-listener-on-sync-machine"
     multi_unless = {g["name"] for t in sc.spec["transitions"] for g in t["guards"]
                     if g["kind"] == "unless" and len(sc.spec["guards"][g["name"]]["providers"]) > 1}
     if multi_unless and (rule.startswith("C01.") or rule.startswith("C02.")):
